@@ -732,6 +732,7 @@ def run(ctx):
     from . import mosekprog
     mosekprog.r_solver_choice(ctx)   # a solver named by the user reaches cvxpy unchanged (cvxpy rejects unknown names)
     no = r_options(ctx)
+    common.r_argbind(ctx, {common.solve_root(ctx.repo).name}, why=" (an option that does not reach the routine that validates it is neither honoured nor rejected)")
     wrappers.r_constraint_kinds(ctx)
     ctx.floor("except clauses", ne, 2)
     ctx.floor("accessors", na, 6)
